@@ -307,7 +307,18 @@ fn main() {
     let ops: u64 = a[5].parse().unwrap();
     let map: M = if cap == 0 { HashMap::with_hasher(HB::new(mode)) } else { HashMap::with_capacity_and_hasher(cap, HB::new(mode)) };
     let m: Arc<M> = Arc::new(map.with_collector(seize::Collector::new().batch_size(1)));
-    {
+    /// keys whose insertion into the tree built from 10, 20, .., 100 needs a double rotation
+    /// (95), a single one (105), or none
+    const ROT_NEW: [u64; 8] = [95, 105, 95, 85, 95, 5, 95, 45];
+    if prog == "rotread" {
+        // `pre` equal tree bins side by side (hasher mode `class`)
+        let g = m.guard();
+        for class in 0..pre {
+            for ord in (1..=10u64).map(|i| i * 10) {
+                m.insert(key(class * 1000 + ord, 0), val(ord, 0), &g);
+            }
+        }
+    } else {
         let g = m.guard();
         for i in 0..pre {
             m.insert(key(i, 0), val(i, 0), &g);
@@ -362,6 +373,41 @@ fn main() {
             spawn!(|m: &M| grower(m, 1, pre, ops));
             spawn!(|m: &M| getter(m, 2, pre + ops, ops * 4));
             spawn!(|m: &M| getter(m, 3, pre + ops, ops * 4));
+        }
+        // one writer inserts, bin by bin, a key whose insertion rotates the tree; `ops` (1-3)
+        // readers keep looking that key up in the bin the writer is about to change: a reader
+        // that registered late walks links stored while the tree was write-locked
+        "rotread" => {
+            spawn!(move |m: &M| {
+                let mut st = Stats::default();
+                let g = m.guard();
+                for class in 0..pre {
+                    let k = class * 1000 + ROT_NEW[(class % 8) as usize];
+                    if let Some(old) = m.insert(key(k, 1), val(k, 1), &g) {
+                        st.insert_old += chk_v(old, 1, &mut st.sum) as u64;
+                    }
+                }
+                st
+            });
+            for r in 0..ops.clamp(1, 3) {
+                spawn!(move |m: &M| {
+                    let me = 2 + r;
+                    let mut st = Stats::default();
+                    let g = m.guard();
+                    for class in 0..pre {
+                        let k = class * 1000 + ROT_NEW[(class % 8) as usize];
+                        for _attempt in 0..100_000u64 {
+                            if let Some((kk, v)) = m.get_key_value(&key(k, me), &g) {
+                                let a = chk_k(kk, me, &mut st.sum);
+                                let b = chk_v(v, me, &mut st.sum);
+                                st.get_kv += (a || b) as u64;
+                                break;
+                            }
+                        }
+                    }
+                    st
+                });
+            }
         }
         _ => {
             eprintln!("unknown program {prog}");
